@@ -697,6 +697,9 @@ class CE:
         if isinstance(fn, tuple) and fn and fn[0] == "recmethod":
             rec, name = fn[1], fn[2]
             if name in GATE_METHODS:
+                need = 2 if name in ("cx", "cz", "swap", "cy") else (3 if name == "ccx" else 1)
+                if len(args) != need:
+                    raise CERaise("TypeError", f"{name}() takes {need} qubit argument(s), {len(args)} given")
                 flat = []
                 for a in args:
                     flat.append(list(a) if isinstance(a, (range, list, tuple)) else a)
